@@ -88,6 +88,21 @@ pub fn fingerprint(g: &GameState, deep: bool) -> u64 {
     h
 }
 
+/// Fingerprint of the stored fields only: no rule query is made (usable on a state nobody has queried yet).
+pub fn structure_fp(g: &GameState) -> u64 {
+    let mut h: u64 = 0xcbf2_9ce4_8422_2325;
+    fold(&mut h, g);
+    fnv(&mut h, g.to_string().as_bytes());
+    fnv(&mut h, &g.transposition_hash().to_le_bytes());
+    if let Some(pp) = g.as_play_phase() {
+        for z in pp.hash_history().iter() {
+            fnv(&mut h, &z.board_state_hash().to_le_bytes());
+        }
+        fnv(&mut h, &[pp.step() as u8, pp.piece_trapped_this_turn() as u8]);
+    }
+    h
+}
+
 fn delay(rng: &mut Lcg) {
     // the only places a real client can interleave: between engine calls
     match rng.below(8) {
@@ -211,9 +226,35 @@ fn hammer_root(root: &GameState, times: u32, expect: u64, out: &mut Vec<(u64, u6
 /// One round: `n` threads expand the same root concurrently (shared via Arc, borrowed, or moved
 /// clones, by `mode`), plus droppers; each thread's sorted result vector must equal `expected`.
 pub fn round(root: &GameState, depth: u32, n: usize, mode: u32, seed: u64, with_delays: bool, hammer: u32, expected: &[(u64, u64)]) -> RoundReport {
-    let root_fp = expected.iter().find(|e| e.0 == 1).map_or(0, |e| e.1);
-    let before = fingerprint(root, true);
-    let mut rep = RoundReport { threads: n, nodes: expected.len(), ..Default::default() };
+    round_impl(root, depth, n, mode, seed, with_delays, hammer, Some(expected))
+}
+
+/// Like `round`, but the root has not been queried by anybody yet: all threads are released from a
+/// spin barrier onto the fresh state at the same instant, and the sequential expansion it is compared
+/// with is computed only AFTER the threads have joined (per-state lazily built caches are then first
+/// touched concurrently).
+pub fn round_fresh(root: &GameState, depth: u32, n: usize, mode: u32, seed: u64) -> RoundReport {
+    round_impl(root, depth, n, mode, seed, false, 0, None)
+}
+
+static GATE: std::sync::atomic::AtomicUsize = std::sync::atomic::AtomicUsize::new(0);
+
+fn round_impl(root: &GameState, depth: u32, n: usize, mode: u32, seed: u64, with_delays: bool, hammer: u32, expected_in: Option<&[(u64, u64)]>) -> RoundReport {
+    let fresh = expected_in.is_none();
+    let root_fp = expected_in.and_then(|e| e.iter().find(|x| x.0 == 1).map(|x| x.1)).unwrap_or(0);
+    let hammer = if fresh { 0 } else { hammer };
+    GATE.store(0, std::sync::atomic::Ordering::SeqCst);
+    let wait_gate = move || {
+        if fresh {
+            GATE.fetch_add(1, std::sync::atomic::Ordering::AcqRel);
+            while GATE.load(std::sync::atomic::Ordering::Acquire) < n {
+                std::hint::spin_loop();
+            }
+        }
+    };
+    // a fresh root is not queried before the threads are released
+    let before = if fresh { structure_fp(root) } else { fingerprint(root, true) };
+    let mut rep = RoundReport { threads: n, nodes: expected_in.map_or(0, |e| e.len()), ..Default::default() };
     let results: Vec<(usize, std::time::Instant, Vec<(u64, u64)>)> = match mode % 3 {
         0 => {
             // shared through Arc (requires Send + Sync)
@@ -224,6 +265,7 @@ pub fn round(root: &GameState, depth: u32, n: usize, mode: u32, seed: u64, with_
                     std::thread::spawn(move || {
                         let mut out = vec![];
                         let mut d = if with_delays { Some(Lcg(seed ^ (i as u64) << 20)) } else { None };
+                        wait_gate();
                         hammer_root(&s, hammer, root_fp, &mut out);
                         expand(&s, depth, 1, &mut Lcg(seed.wrapping_add(i as u64 * 7919)), &mut d, &mut out);
                         (i, std::time::Instant::now(), out)
@@ -240,6 +282,7 @@ pub fn round(root: &GameState, depth: u32, n: usize, mode: u32, seed: u64, with_
                         sc.spawn(move || {
                             let mut out = vec![];
                             if i % 4 == 3 {
+                                wait_gate();
                                 // dropper: clones of the shared state and of its history list
                                 for _ in 0..20 {
                                     let c = root.clone();
@@ -251,6 +294,7 @@ pub fn round(root: &GameState, depth: u32, n: usize, mode: u32, seed: u64, with_
                                 return (true, (i, std::time::Instant::now(), out));
                             }
                             let mut d = if with_delays { Some(Lcg(seed ^ (i as u64) << 20)) } else { None };
+                            wait_gate();
                             hammer_root(root, hammer, root_fp, &mut out);
                             expand(root, depth, 1, &mut Lcg(seed.wrapping_add(i as u64 * 104729)), &mut d, &mut out);
                             (false, (i, std::time::Instant::now(), out))
@@ -268,6 +312,7 @@ pub fn round(root: &GameState, depth: u32, n: usize, mode: u32, seed: u64, with_
                     std::thread::spawn(move || {
                         let mut out = vec![];
                         let mut d = if with_delays { Some(Lcg(seed ^ (i as u64) << 20)) } else { None };
+                        wait_gate();
                         hammer_root(&mine, hammer, root_fp, &mut out);
                         expand(&mine, depth, 1, &mut Lcg(seed.wrapping_add(i as u64 * 31)), &mut d, &mut out);
                         drop(mine);
@@ -276,6 +321,14 @@ pub fn round(root: &GameState, depth: u32, n: usize, mode: u32, seed: u64, with_
                 })
                 .collect();
             hs.into_iter().map(|h| h.join().unwrap()).collect()
+        }
+    };
+    let computed: Vec<(u64, u64)>;
+    let expected: &[(u64, u64)] = match expected_in {
+        Some(e) => e,
+        None => {
+            computed = sequential(root, depth);
+            &computed
         }
     };
     let mut order: Vec<(std::time::Instant, usize)> = results.iter().map(|r| (r.1, r.0)).collect();
@@ -291,7 +344,10 @@ pub fn round(root: &GameState, depth: u32, n: usize, mode: u32, seed: u64, with_
             }
         }
     }
-    rep.root_changed = fingerprint(root, true) != before;
+    if rep.nodes == 0 {
+        rep.nodes = expected.len();
+    }
+    rep.root_changed = (if fresh { structure_fp(root) } else { fingerprint(root, true) }) != before;
     rep
 }
 
@@ -560,4 +616,99 @@ pub fn states_at_step(root: &GameState, step: usize, cap: usize) -> Vec<GameStat
     let mut all = vec![];
     collect(root, step as u32, &mut all, cap * 20);
     all.into_iter().filter(|g| g.is_play_phase() && g.current_step() == step).take(cap).collect()
+}
+
+
+/// Migration round ("work stealing"): every thread plays its own deterministic playout from its own
+/// start position (all states of the chain are BUILT on that thread), hands the whole chain to its
+/// neighbour, and then continues the neighbour's states (take_action of every offered action) while
+/// interleaving queries on its own states. Every successor must equal the one computed sequentially.
+/// `starts[i]` is the start state of thread i's playout. Returns (mismatches, successors compared).
+pub fn migration_round(starts: &[GameState], chain_len: usize, seed: u64) -> (usize, usize) {
+    use std::sync::mpsc::channel;
+    let n = starts.len();
+    // sequential reference: chains and successor fingerprints
+    let play = |start: &GameState, salt: u64| -> Vec<GameState> {
+        let mut rng = Lcg(seed ^ salt);
+        let mut g = start.clone();
+        let mut chain = vec![];
+        for _ in 0..chain_len {
+            if g.is_play_phase() && g.current_step() == 0 && g.is_terminal().is_some() {
+                break;
+            }
+            let acts = g.valid_actions();
+            if acts.is_empty() {
+                break;
+            }
+            // prefer capturing steps: capture-rich chains
+            let caps: Vec<&Action> = acts.iter().filter(|a| g.trapped_animal_for_action(a).is_some()).collect();
+            let a = if !caps.is_empty() && rng.below(2) == 0 { *caps[rng.below(caps.len())] } else { acts[rng.below(acts.len())] };
+            g = g.take_action(&a);
+            chain.push(g.clone());
+        }
+        chain
+    };
+    let succ = |g: &GameState| -> Vec<u64> { g.valid_actions().iter().map(|a| fingerprint(&g.take_action(a), false)).collect() };
+    let expected: Vec<Vec<Vec<u64>>> = (0..n).map(|i| play(&starts[i], i as u64).iter().map(|g| succ(g)).collect()).collect();
+    let expected = Arc::new(expected);
+    let mut txs = vec![];
+    let mut rxs = vec![];
+    for _ in 0..n {
+        let (tx, rx) = channel::<Vec<GameState>>();
+        txs.push(tx);
+        rxs.push(Some(rx));
+    }
+    let hs: Vec<_> = (0..n)
+        .map(|i| {
+            let start = starts[i].clone();
+            let tx = txs[(i + 1) % n].clone();
+            let rx = rxs[i].take().unwrap();
+            let expected = Arc::clone(&expected);
+            std::thread::spawn(move || {
+                // the chain is built on THIS thread
+                let mut rng = Lcg(seed ^ i as u64);
+                let mut g = start;
+                let mut chain = vec![];
+                for _ in 0..chain_len {
+                    if g.is_play_phase() && g.current_step() == 0 && g.is_terminal().is_some() {
+                        break;
+                    }
+                    let acts = g.valid_actions();
+                    if acts.is_empty() {
+                        break;
+                    }
+                    let caps: Vec<&Action> = acts.iter().filter(|a| g.trapped_animal_for_action(a).is_some()).collect();
+                    let a = if !caps.is_empty() && rng.below(2) == 0 { *caps[rng.below(caps.len())] } else { acts[rng.below(acts.len())] };
+                    g = g.take_action(&a);
+                    chain.push(g.clone());
+                }
+                tx.send(chain.clone()).ok();
+                let theirs = rx.recv().unwrap_or_default();
+                let from = (i + n - 1) % n;
+                let mut bad = 0usize;
+                let mut cmp = 0usize;
+                for (k, s) in theirs.iter().enumerate() {
+                    // a query on one of our own states first (same position in the chain)
+                    if let Some(own) = chain.get(k) {
+                        let _ = fingerprint(own, false);
+                    }
+                    let got: Vec<u64> = s.valid_actions().iter().map(|a| fingerprint(&s.take_action(a), false)).collect();
+                    cmp += got.len();
+                    if expected[from].get(k) != Some(&got) {
+                        bad += 1;
+                    }
+                }
+                (bad, cmp)
+            })
+        })
+        .collect();
+    drop(txs);
+    let mut bad = 0;
+    let mut cmp = 0;
+    for h in hs {
+        let (b, c) = h.join().unwrap();
+        bad += b;
+        cmp += c;
+    }
+    (bad, cmp)
 }
